@@ -18,6 +18,7 @@ import (
 	"os"
 	"os/exec"
 	"path/filepath"
+	"sort"
 	"strings"
 	"sync"
 	"syscall"
@@ -339,6 +340,27 @@ func cmdConfig(args []string) {
 	}
 	// (b) defaults: unset fields take the documented defaults, explicit values survive SetDefaults
 	cfDefaults(rule)
+	// a memory store configured without a directory has no backing directory: started in a working directory that holds
+	// layouts it serves none of them (the directory setting is the only way to layer a memory store over a directory)
+	if cwd, err := os.Getwd(); err == nil {
+		probe := func(conf config.Config) (int, string) {
+			s := olareg.New(conf)
+			defer s.Close()
+			st, _, body := libClient(s)("GET", "/v2/c19/repo/tags/list", nil, nil)
+			return st, string(body)
+		}
+		if err := os.Chdir(fxOn.dir); err == nil {
+			stDir, bodyDir := probe(config.Config{Storage: config.ConfigStorage{StoreType: config.StoreMem, RootDir: "."}})
+			stMem, bodyMem := probe(config.Config{Storage: config.ConfigStorage{StoreType: config.StoreMem}})
+			_ = os.Chdir(cwd)
+			hasTags := func(b string) bool { return strings.Contains(b, "\"tags\":[\"") }
+			if stDir == 200 && hasTags(bodyDir) {
+				rule("mem-without-dir-serves-nothing", !(stMem == 200 && hasTags(bodyMem)), fmt.Sprintf("status %d body %.80s", stMem, bodyMem))
+			} else {
+				rule("mem-without-dir-fixture", false, fmt.Sprintf("the fixture is not served by a memory store over '.': status %d body %.80s", stDir, bodyDir))
+			}
+		}
+	}
 	// (c) binary level: flag -> field wiring, SIGTERM
 	if *bin != "" && len(combos) > 0 {
 		rng := rand.New(rand.NewSource(*seed))
@@ -513,6 +535,42 @@ func cfRateLimit(inFile, outFile string) int {
 		}(bi)
 	}
 	wg.Wait()
+	// bursts: the very first requests of an address arrive at the same moment (no accounting entry exists yet); whatever
+	// order the limiter sees them in, no more than the limit are served.  Logged served-first: the order most favourable
+	// to the implementation among the orders simultaneous requests may be accounted in.
+	for _, limit := range []int{1, 2, 3} {
+		conf := config.Config{Storage: config.ConfigStorage{StoreType: config.StoreMem, GC: config.ConfigGC{Frequency: -1}}, API: config.ConfigAPI{RateLimit: limit}}
+		s := olareg.New(conf)
+		start := time.Now()
+		burst := []ev{}
+		for ai := 0; ai < 400; ai++ {
+			const k = 8
+			codes := make([]int, k)
+			var bw sync.WaitGroup
+			gate := make(chan struct{})
+			t := time.Since(start).Milliseconds()
+			for j := 0; j < k; j++ {
+				bw.Add(1)
+				go func(j int) {
+					defer bw.Done()
+					req := httptest.NewRequest("GET", "/v2/", nil)
+					req.RemoteAddr = fmt.Sprintf("10.%d.%d.%d:4%d", limit, ai/250, ai%250+1, 1000+j)
+					rec := httptest.NewRecorder()
+					<-gate
+					s.ServeHTTP(rec, req)
+					codes[j] = rec.Code
+				}(j)
+			}
+			close(gate)
+			bw.Wait()
+			sort.Slice(codes, func(x, y int) bool { return codes[x] != 429 && codes[y] == 429 })
+			for _, c := range codes {
+				burst = append(burst, ev{A: fmt.Sprintf("x%d", ai), T: t, Status: c, Limit: limit})
+			}
+		}
+		_ = s.Close()
+		results = append(results, burst)
+	}
 	of, _ := os.Create(outFile)
 	w := bufio.NewWriter(of)
 	enc := json.NewEncoder(w)
